@@ -197,9 +197,7 @@ class RegExp:
         result = vm.search(string, self.lastIndex if self._global else 0)
         if result:
             if self._global:
-                self.lastIndex = (
-                    result.index + len(result[0]) if result[0] else result.index + 1
-                )
+                self.lastIndex = result.index + len(result[0])
             return True
 
         if self._global:
@@ -250,9 +248,7 @@ class RegExp:
 
         if result:
             if self._global:
-                end_cp = (
-                    result.index + len(result[0]) if result[0] else result.index + 1
-                )
+                end_cp = result.index + len(result[0])
                 if self._unicode:
                     self.lastIndex = _codepoint_to_utf16_index(string, end_cp)
                 else:
